@@ -166,6 +166,8 @@ type WorldKnobs struct {
 	SyncPeriod       common.Epoch // EPOCHS_PER_SYNC_COMMITTEE_PERIOD (0 = 8)
 	BellatrixEpoch   common.Epoch // 0 = never
 	CapellaEpoch     common.Epoch // 0 = never
+	SlotsPerEpoch    common.Slot  // 0 = 8
+	MaxCommittees    uint64       // MAX_COMMITTEES_PER_SLOT, 0 = 4
 }
 
 // acceptAll: an execution engine that accepts every payload (the gossip validators never look at payloads).
@@ -188,8 +190,14 @@ func makeSpec(k WorldKnobs) *common.Spec {
 	sp := *configs.Minimal
 	sp.ExecutionEngine = nil
 	sp.SLOTS_PER_EPOCH = 8
+	if k.SlotsPerEpoch != 0 {
+		sp.SLOTS_PER_EPOCH = k.SlotsPerEpoch
+	}
 	sp.TARGET_COMMITTEE_SIZE = view.Uint64View(k.TargetCommittee)
 	sp.MAX_COMMITTEES_PER_SLOT = 4
+	if k.MaxCommittees != 0 {
+		sp.MAX_COMMITTEES_PER_SLOT = view.Uint64View(k.MaxCommittees)
+	}
 	sp.SHARD_COMMITTEE_PERIOD = k.ShardCommittee
 	sp.SYNC_COMMITTEE_SIZE = view.Uint64View(k.SyncCommittee)
 	sp.EPOCHS_PER_SYNC_COMMITTEE_PERIOD = 8
